@@ -92,8 +92,14 @@ theorem checklist_enters (s : CSt) (p : Tag) (hr : s.reading = true) (h : p.drop
   unfold cstep
   simp only [hr, Bool.not_true, Bool.false_eq_true, if_false]
   by_cases hp : p ∈ s.checklist
-  · simp [h, hp]
-  · simp [h, hp]
+  · simp [Gen.loopChecklistAdds, h, hp]
+  · simp [Gen.loopChecklistAdds, h, hp]
+
+/-- and the step stops reading a port exactly when its termination token was taken and nothing is left on the checklist -/
+theorem checklist_stops (s : CSt) (st : Status) (hr : s.reading = true) (hc : s.checklist = []) :
+    (cstep s (.term st)).reading = false := by
+  unfold cstep
+  simp [hr, hc, Gen.loopKeepsReading]
 
 /-- non-vacuity: 12 iterations arriving in reverse order, iteration termination first -/
 example (evs : List (Ev Nat))
